@@ -43,6 +43,9 @@ def is_py(v, kind=None):
 
 NONE = V(TNone, z3.BoolVal(True))
 
+# external objects without __bool__/__len__ (sockets, certificates, datetimes, addresses)
+ALWAYS_TRUTHY = {'sock', 'ipaddr', 'datetime', 'cert', 'sslctx', 'ext', 'match', 'route', 'clagent', 'sender'}
+
 
 def mk_int(n):
     return V(TInt, z3.IntVal(n) if isinstance(n, int) else n)
@@ -127,7 +130,38 @@ def coerce(v, t):
         if isinstance(v.t, TOpt):
             raise Unsupported('coerce %s -> %s' % (v.t, t))
         return opt_wrap(coerce(v, t.inner) if v.t is not TNone else v, t)
+    if isinstance(t, TList) and isinstance(v.t, TList) and isinstance(t.elem, TPkt) and isinstance(v.t.elem, TPkt):
+        return V(t, v.z)
+    if isinstance(t, TDict) and is_py(v, 'kwdict') and t.k is TStr:
+        dom = t.empty_dom()
+        mp = z3.Const(fresh_name('dmap'), z3.ArraySort(t.k.sort(), t.v.sort()))
+        for k, item in v.py[1].items():
+            kz = mk_str_const(k).z
+            dom = z3.Store(dom, kz, True)
+            mp = z3.Store(mp, kz, coerce(item, t.v).z)
+        return V(t, t.mk(dom, mp))
+    if isinstance(t, TUnion) and isinstance(v.t, TUnion):
+        # map alternatives by name, payload by type
+        expr = None
+        for n, at in reversed(v.t.alts):
+            if at is TNone:
+                tgt = t.mk(n) if any(x == n for x, _ in t.alts) else None
+            else:
+                tgt = None
+                for n2, at2 in t.alts:
+                    if at2 == at:
+                        tgt = t.mk(n2, v.t.get(n, v.z))
+                        break
+            if tgt is None:
+                raise Unsupported('coerce %s -> %s' % (v.t, t))
+            expr = tgt if expr is None else z3.If(v.t.is_(n, v.z), tgt, expr)
+        return V(t, expr)
     if isinstance(t, TUnion):
+        if isinstance(v.t, TOpt):
+            inner = coerce(V(v.t.inner, v.t.val(v.z)), t)
+            return V(t, z3.If(v.t.is_none(v.z), t.mk('none'), inner.z))
+        if v.t is TNone:
+            return V(t, t.mk('none'))
         for n, at in t.alts:
             if at == v.t:
                 return V(t, t.mk(n, None if at is TNone else v.z))
@@ -191,6 +225,8 @@ def truthy(v):
             parts.append(z3.And(t.is_(n, v.z), truthy(V(at, t.get(n, v.z)))))
         return z3.Or(*parts) if parts else z3.BoolVal(False)
     if isinstance(t, TAny):
+        if t.name in ALWAYS_TRUTHY:
+            return z3.BoolVal(True)
         return any_truthy(t, v.z)
     if t is TPy:
         if v.py[0] == 'kwdict':
